@@ -16,6 +16,11 @@ CPP = {
 }
 
 
+# fields whose accessors take / return an enumerator that IS the field value in wire byte order (the API glue of vlib/layout.py maps
+# numbers to enumerators with `?:`, which is outside the glue patterns): (getter, setter, position of the field in the host value)
+RAWGLUE = {("analog", "sampleDt"): ("getSampleDt", "setSampleDt", 8)}
+
+
 def split_args(s):
     out, depth, cur = [], 0, ""
     for ch in s:
@@ -69,6 +74,10 @@ def instantiate(meta, name, args, enums, bits):
     lean_args = []
     for (pn, pty), a in zip(params, args):
         a = a.strip()
+        # a float travels as its bit pattern (the harness converts with memcpy): `bitsToFloat(x)` is `x` in the bit programs
+        fm = re.fullmatch(r"bitsToFloat\((.*)\)", a)
+        if fm:
+            a = fm.group(1).strip()
         m = re.fullmatch(r"(?:static_cast<[^>]*>\()?\(?\{v\}\)?(?:\s*<<\s*(\d+))?\)?\)?", a)
         if pty == "Op" and m and "{v}" in a and "!=" not in a and "?" not in a:
             info["k"] = 0
@@ -103,8 +112,21 @@ def generate(T):
         for f in fields if classes else []:
             fname, off, w, shift, bits, setter, getter = f[:7]
             # ---- getter
-            g = getter.strip()
+            g = re.sub(r"floatToBits\((o\.[\w>()-]*\(\))\)", r"\1", getter.strip())
             sh = 0
+            raw = RAWGLUE.get((cname, fname))
+            if raw:
+                # the accessor pair works on the field in wire byte order: getter result / setter argument = field value << sh
+                gname, sname, rsh = find_prog(meta, classes, False, raw[0]), find_prog(meta, classes, False, raw[1]), raw[2]
+                if gname and meta[gname] == ([], "val"):
+                    entries.append('⟨"%s", "get", .get %s_prog %d⟩' % (fname, gname, rsh))
+                else:
+                    notes.append("%s.%s get: no bit program for %s" % (cname, fname, raw[0]))
+                if sname and meta[sname][1] == "void" and [t for _n, t in meta[sname][0]] == ["Op"]:
+                    entries.append('⟨"%s", "set", .set (%s_prog (.arg 0)) 0 %d⟩' % (fname, sname, rsh))
+                else:
+                    notes.append("%s.%s set: no bit program for %s" % (cname, fname, raw[1]))
+                continue
             m = re.fullmatch(r"\(static_cast<unsigned long long>\((o\..*)\)\s*>>\s*(\d+)\)", g)
             if m:
                 call, sh, want = m.group(1), int(m.group(2)), "val"
